@@ -135,3 +135,54 @@ fn verif_replay_lexer_pos() {
         ("lexer_checkpoint_restore_contract", lexer_checkpoint_restore_contract as fn()),
     ]);
 }
+
+// ---- position resets used by the parser's re-scans ------------------------------------------------
+// independent reference: walk `s[from..to]` character by character from (line, col)
+fn walk(s: &str, from: usize, to: usize, mut line: u32, mut col: u32) -> (u32, u32) {
+    let bytes = s.as_bytes();
+    let mut i = from;
+    while i < to && i < bytes.len() {
+        let b = bytes[i];
+        // lead byte -> scalar length; LS/PS are E2 80 A8 / E2 80 A9
+        let n = if b < 0x80 { 1 } else if b < 0xE0 { 2 } else if b < 0xF0 { 3 } else { 4 };
+        let is_term = b == b'\n' || (n == 3 && i + 2 < bytes.len() && b == 0xE2 && bytes[i + 1] == 0x80 && (bytes[i + 2] == 0xA8 || bytes[i + 2] == 0xA9));
+        if is_term {
+            line += 1;
+            col = 1;
+        } else {
+            col += 1;
+        }
+        i += n;
+    }
+    (line, col)
+}
+
+// rescan_template_continuation(span of a `}` token): scanning resumes right after the brace, one column
+// further on the same line, and the final position is consistent with the characters consumed.
+// BOUNDED: source = "}" c "`" with c any Unicode scalar value (the continuation ends at the back-tick).
+#[cfg_attr(kani, kani::proof)]
+#[cfg_attr(kani, kani::unwind(8))]
+fn lexer_rescan_template_contract() {
+    let c = any_char();
+    kani::assume(c != '`' && c != '\\' && c != '$');
+    let mut buf = [0u8; 6];
+    buf[0] = b'}';
+    let n = c.encode_utf8(&mut buf[1..5]).len();
+    buf[1 + n] = b'`';
+    let s = match core::str::from_utf8(&buf[..n + 2]) {
+        Ok(s) => s,
+        Err(_) => "}`",
+    };
+    let mut dict = StringDict::new();
+    let mut lx = Lexer::new(s, &mut dict);
+    let line: u32 = kani::any();
+    let column: u32 = kani::any();
+    kani::assume(line < u32::MAX - 2 && column < u32::MAX - 4);
+    let span = Span::new(0, 1, line, column);
+    let _kind = lx.rescan_template_continuation(span);
+    let want = walk(s, 1, lx.current_pos, line, column + 1);
+    assert!(lx.current_pos == n + 2, "OBL lexer_pos/Lexer::rescan_template_continuation/ensures#consumes_through_backtick");
+    assert!((lx.line, lx.column) == want, "OBL lexer_pos/Lexer::rescan_template_continuation/ensures#line_column_consistent_with_consumed_text");
+    kani::cover!(c == '\n', "COVER newline inside the continuation");
+    kani::cover!(c.len_utf8() == 3, "COVER 3-byte char inside the continuation");
+}
